@@ -42,6 +42,10 @@ def gen_cfg(w, r, pure=False):
     else:
         meth = r.choices(CfgOp.MUT, weights=[8, 3, 2, 2, 0.5, 3, 2, 2, 1.5, 1.5])[0]
     op = {"op": "cfg", "ir": ir, "method": meth}
+    if not pure and w.cfg.get("p_cfg_none_endpoint", 0.0) and r.random() < w.cfg["p_cfg_none_endpoint"]:
+        n0 = pick(r, m.by_kind("cb", "px"))
+        if n0 is not None:
+            return {"op": "cfg", "ir": ir, "method": "add_none", "args": [n0, r.choice(["source", "target"])]}
     if meth in ("add", "discard", "remove", "contains"):
         e = gen_edge(w, r, ir)
         if e is None:
@@ -56,6 +60,8 @@ def gen_cfg(w, r, pure=False):
             op["args"] = [[]]
         if meth == "update":
             op["style"] = r.choice(["list", "iter", "set"])
+        if meth in ("ior", "isub", "iand", "ixor") and r.random() < 0.2:
+            op["style"] = "iter"
         if meth in ("or", "and", "sub", "xor", "eq", "le") and r.random() < 0.4:
             op["reflected"] = True
     elif meth in ("out_edges", "in_edges"):
